@@ -135,6 +135,24 @@ class KJob:
             q.update(verdict="inconclusive", detail=f"solver returned {r} after {secs:.0f}s")
         self.queries.append(q)
 
+    def reach(self, qid: str, constraints: list, *, decode, confirm, bound: str) -> None:
+        """Reachability witness: `constraints` must be satisfiable and the decoded input must make the real code reach the
+        same place (confirm(inputs) -> (reached, detail)); otherwise the queries that depend on it are vacuous."""
+        t0 = time.time()
+        r, m, _, _ = self._check(constraints, 60_000)
+        q: dict = {"id": qid, "bound": bound, "solver": "z3 " + z3.get_version_string(), "seconds": round(time.time() - t0, 2)}
+        if r != "sat":
+            q.update(verdict="harness_error", detail=f"witness is {r}: the guarded code is never reached (vacuous)")
+        else:
+            inp = decode(m)
+            ok, detail = confirm(inp)
+            q["witness"] = inp
+            if ok:
+                q.update(verdict="holds", detail=f"reached, e.g. {inp}")
+            else:
+                q.update(verdict="harness_error", detail=f"witness {inp} does not reach the place natively: {detail}")
+        self.queries.append(q)
+
     # ---------------------------------------------------------------------------------------------- validation
     def validate(self, name: str, encode, real, samples: list) -> None:
         """Translator validation: the encoding evaluated on concrete inputs must equal the real function.
